@@ -41,7 +41,7 @@ m = {
     "engines": [{"name": "nokvsa", "path": "/verif/sa", "serves_properties": [c['property_id'] for c in checks],
                  "kind_free_text": "repository-specific static analyzer: type-checked AST + go/ssa dominance, def-use, lockset, who-may-call (VTA), taint and enum-exhaustiveness rules with frozen, hand-confirmed instance tables"}],
     "checks": checks,
-    "notes": "Every check is `check.sh <id> <tier>`: builds /verif/sa offline if needed (vendored x/tools v0.29.0, go1.26.8) and analyses /repo's current working tree. Exit 0 = all obligations discharged (known findings listed in known_findings.json print KNOWN-FINDING lines); exit 1 + VIOLATION line otherwise. thorough adds linux/386, darwin/amd64, darwin/arm64 build configurations.",
+    "notes": "Every check is `check.sh <id> <tier>`: builds /verif/sa offline if needed (vendored x/tools v0.29.0, go1.26.8) and analyses /repo's current working tree. Exit 0 = all obligations discharged (known findings listed in known_findings.json print KNOWN-FINDING lines); exit 1 + VIOLATION line otherwise. thorough adds linux/arm64, darwin/amd64, darwin/arm64 build configurations.",
     "not_applicable": na,
 }
 json.dump(m, open(os.path.join(V, 'MANIFEST.json'), 'w'), indent=1)
